@@ -8,6 +8,8 @@ import (
 	"encoding/json"
 	"flag"
 	"fmt"
+	"io"
+	"log"
 	"os"
 	"path/filepath"
 	"sort"
@@ -102,6 +104,7 @@ func check(err error) {
 var commands = map[string]func(*env){}
 
 func main() {
+	log.SetOutput(io.Discard) // gomacro logs every flattened field
 	tier := flag.String("tier", "quick", "quick|thorough")
 	seed := flag.Int64("seed", 1, "PRNG seed")
 	out := flag.String("out", "", "output directory")
